@@ -4,7 +4,9 @@ package c02
 import (
 	"bytes"
 	"fmt"
+	"net"
 	"testing"
+	"time"
 
 	wio "github.com/whatap/golib/io"
 	"github.com/whatap/golib/lang/value"
@@ -99,6 +101,10 @@ func roundTrip(c Case) *pbt.Result {
 	if diff := ref.DiffValue(v, rv, "$"); diff != "" {
 		return pbt.Fail("reference decoder reads a different value at %s", diff)
 	}
+	// the connection entry point: the same bytes arriving over a connection in pieces, followed by one more byte
+	if msg := viaConnection(v, got); msg != "" {
+		return pbt.Fail("%s", msg)
+	}
 	types := map[byte]bool{}
 	ref.Types(v, types)
 	classes := []string{fmt.Sprintf("depth=%d", depthBucket(ref.Depth(v))), fmt.Sprintf("width=%s", widthBucket(ref.Width(v)))}
@@ -107,6 +113,54 @@ func roundTrip(c Case) *pbt.Result {
 	}
 	nt := len(got) > 2
 	return &pbt.Result{NT: nt, Classes: classes, Key: got}
+}
+
+// viaConnection decodes enc from a connection-backed input (net.Pipe; the peer writes enc and a sentinel byte in pieces
+// whose size depends on the encoding only, then closes): the value must be the one encoded and the next byte the sentinel.
+func viaConnection(v *ref.V, enc []byte) string {
+	server, client := net.Pipe()
+	defer client.Close()
+	chunk := []int{1, 3, 64, 4096, 1 << 30}[len(enc)%5]
+	if len(enc) > 4096 && chunk < 64 {
+		chunk = 1000
+	}
+	go func() {
+		defer server.Close()
+		msg := append(append([]byte(nil), enc...), 0x7E)
+		for off := 0; off < len(msg); off += chunk {
+			end := off + chunk
+			if end > len(msg) || end < 0 {
+				end = len(msg)
+			}
+			if _, err := server.Write(msg[off:end]); err != nil {
+				return
+			}
+		}
+	}()
+	var d value.Value
+	var next byte
+	returned, pv := pbt.WithTimeout(60*time.Second, func() {
+		in := wio.NewDataInputNet(client)
+		d = value.ReadValue(in)
+		next = in.ReadByte()
+	})
+	if !returned {
+		return fmt.Sprintf("ReadValue over a connection that delivers the %d-byte encoding in pieces of %d bytes did not return within 60 s", len(enc), chunk)
+	}
+	if pv != nil {
+		return fmt.Sprintf("ReadValue over a connection (the %d-byte encoding in pieces of %d bytes) fails although the same bytes decode from memory: %v", len(enc), chunk, pv)
+	}
+	view, err := gval.FromGolib(d)
+	if err != nil {
+		return fmt.Sprintf("value decoded over a connection cannot be walked: %v", err)
+	}
+	if diff := ref.DiffValue(v, view, "$"); diff != "" {
+		return "the value decoded over a connection differs from the original at " + diff
+	}
+	if next != 0x7E {
+		return fmt.Sprintf("after ReadValue over a connection the next byte read is %#x, not the byte that follows the encoding (decoding did not consume exactly the encoding)", next)
+	}
+	return ""
 }
 
 func tailAt(b []byte, k int) []byte {
